@@ -25,7 +25,7 @@ SIMPLE_DESTS = ["/u1", "/u2", "/path/three", "http://example.com/x", "#frag", "r
 RICH_DESTS = ["<a b>", "<>", "/a\\*b", "/e&amp;f", "/p%20q", "/é", "<sp ace\\>>", "/x&ouml;y", "mailto:a@b.c",
               "//host/p?q=1&r=2", "/back\\\\slash", "<\\<lt>"]
 SIMPLE_TITLES = ["", "", "t1", "Title Two", "x"]
-RICH_TITLES = ['"q \\"esc\\" q"', "'sq'", "(par)", '"&copy; &amp; &#35;"', '"multi\nline"', '"a\\*b"', "'it\\'s'",
+RICH_TITLES = ['"one\\\ntwo"', "'a\\\nb\\\nc'", '"q \\"esc\\" q"', "'sq'", "(par)", '"&copy; &amp; &#35;"', '"multi\nline"', '"a\\*b"', "'it\\'s'",
                '"<b>"', '""', "'with \"dq\"'"]
 
 
@@ -154,7 +154,8 @@ def gen(rng: random.Random, tier: str) -> dict:
         var, vk = _variant(rng, base)
         uses.append({"label": var, "vk": vk, "form": rng.choice(["full", "full", "collapsed", "shortcut", "image"])})
     return {"cfg": cfg, "pre": pre, "leads": leads, "wraps": wraps, "kinds": kinds, "blocks": blocks, "n_env": n_env, "n_inst": n_inst, "hist": hist,
-            "env_type": rng.choice(["dict", "dict", "userdict"]),
+            "env_type": rng.choice(["dict", "dict", "userdict", "defaultrefs"]),
+            "pre_uses": rng.random() < 0.25,
             "probe": {"inst": rng.randrange(n_inst), "env": rng.randrange(n_env), "doc": doc, "redefine": redefine,
                       "uses": uses}}
 
@@ -251,7 +252,13 @@ def _first_link(md, src, env):
 
 
 def execute(rec: dict, res: RunResult) -> None:
-    mk = collections.UserDict if rec["env_type"] == "userdict" else dict
+    def mk():
+        if rec["env_type"] == "userdict":
+            return collections.UserDict()
+        if rec["env_type"] == "defaultrefs":
+            # the caller made the references table itself, as a defaultdict-like mapping
+            return {"references": collections.defaultdict(dict)}
+        return {}
     insts = [build_inst(rec, True) for _ in range(rec["n_inst"])]
     pre = rec.get("pre") or {}
     leads = rec.get("leads") or [None] * len(rec["blocks"])
@@ -275,6 +282,18 @@ def execute(rec: dict, res: RunResult) -> None:
     # ---- the history: definition blocks parsed into caller-owned envs
     for k, (i, e, b) in enumerate(rec["hist"]):
         defs = rec["blocks"][b]
+        if rec.get("pre_uses") and b not in seeded_blocks[e]:
+            # the label is USED in this env before it is defined there: nothing may be recorded by that
+            key0 = norm_model(defs[0]["label"])
+            if key0 not in model[e]:
+                n0 = (len(envs[e].get("references", {})), len(envs[e].get("duplicate_refs", [])))
+                insts[i].render(f"[t][{defs[0]['label']}] [{defs[0]['label']}]\n", envs[e])
+                n1 = (len(envs[e].get("references", {})), len(envs[e].get("duplicate_refs", [])))
+                res.count("label_used_before_defined")
+                if n1 != n0:
+                    res.fail("BOOKKEEPING", f"step {k}: using the undefined label {defs[0]['label']!r} changed the env's "
+                                            f"reference/duplicate counts {n0} -> {n1}", "use-before-define")
+                    return
         lead = leads[b]
         wrap = (rec.get("wraps") or [None] * len(rec["blocks"]))[b]
         if wrap is not None and wrap >= len(defs):
@@ -315,8 +334,11 @@ def execute(rec: dict, res: RunResult) -> None:
                 res.events.append([k, "discarded"])
                 return
         elif toks:
-            res.count("discarded_block_not_pure_definitions")
-            res.events.append([k, "discarded"])
+            # the generator only writes well-formed definitions (on the pinned tree this never happens): something of
+            # the block was not taken as a definition
+            res.fail("BOOKKEEPING", f"step {k}: a block consisting of definitions only, {text!r}, left tokens "
+                                    f"{[t.type for t in toks][:6]} (content {[t.content for t in toks if t.content][:2]}): "
+                                    f"not every definition in the source was taken as one", "not-a-definition")
             return
         refs = env.get("references", {})
         dups = env.get("duplicate_refs", [])
@@ -476,7 +498,8 @@ class C16(Engine):
                        "duplicate_in_D_of_seeded_label", "multiline_definition", "userdict_env", "two_instances_one_env",
                        "inline_form_compared", "instances_with_a_past", "link_hook_reassigned_before_history",
                        "reference_rule_reregistered_with_alt", "definition_directly_under_paragraph_text",
-                       "definitions_inside_nested_subdocument_container", "definitions_inside_blockquote_or_list_item"]
+                       "definitions_inside_nested_subdocument_container", "definitions_inside_blockquote_or_list_item",
+                       "label_used_before_defined"]
 
     def budget(self, tier):
         if tier == "quick":
@@ -519,6 +542,8 @@ class C16(Engine):
             yield {**rec, "cfg": base}
         if rec["env_type"] != "dict":
             yield {**rec, "env_type": "dict"}
+        if rec.get("pre_uses"):
+            yield {**rec, "pre_uses": False}
         pre = rec.get("pre") or {}
         for key, simple in (("warm", False), ("nl_suffix", None)):
             if pre.get(key) != simple:
